@@ -297,6 +297,34 @@ func runC08(w *World, tier string) (bool, interface{}) {
 			w.Stats.Fault("multi-round")
 		}
 	}
+	// operators look at their node while it works: status requests (round list, one
+	// round's dump) are served inside ticks, also between the moment the poller has
+	// loaded a round and the moment it applies the message to it
+	if w.Tape.Bool(1, 2, "statusQueries") {
+		w.PostGates = true
+		w.NodeYields = true
+		inHook := false
+		w.GateHook = func(tk *Task, g GateInfo) {
+			if inHook || tk.Node < 0 || tk.Node >= len(w.Nodes) {
+				return
+			}
+			nd := w.Nodes[tk.Node]
+			if nd.inc == nil || nd.inc.Poller != tk || g.Point == "start" || g.Point == "st.loadOffset" {
+				return
+			}
+			if !w.Tape.Bool(1, 6, "statusNow") {
+				return
+			}
+			inHook = true
+			path := "/getFSMList"
+			if w.Tape.Bool(2, 3, "oneRound") {
+				path = "/getFSMDump?dkgID=" + roundsSeen[w.Tape.Choose(len(roundsSeen), "statusOf")]
+			}
+			w.CallAPI(nd, "status", "GET", path, nil)
+			inHook = false
+			w.Stats.Fault("status-query-inside-a-tick")
+		}
+	}
 	// clean stop/start of live nodes at message boundaries
 	stops := 0
 	c.L.AfterStep = func() {
@@ -336,6 +364,7 @@ func runC08(w *World, tier string) (bool, interface{}) {
 	}
 	c.L.AfterStep = nil
 	c.L.Quiesce(10)
+	w.GateHook, w.PostGates, w.NodeYields = nil, false, false
 	w.Board.PreAppend = nil
 	// ---- the log is frozen -----------------------------------------------------------
 	L := append([]storage.Message(nil), w.Board.Msgs...)
